@@ -286,6 +286,32 @@ func c19Run(c c19Case, st *c19Stats) (violation string, harnessErr error) {
 	tainted := false // state reads became unreliable (digest broke); stop asserting state equality
 
 	for i, r := range c.Reqs {
+		if r.Method == c19RestartStep { // pseudo-request: restart engine + server on the same data dir
+			st.label("restart-mid-sequence")
+			var rerr error
+			func() {
+				defer func() {
+					if p := recover(); p != nil {
+						rerr = fmt.Errorf("panic while reopening: %v", p)
+					}
+				}()
+				rerr = env.reopen()
+			}()
+			if rerr != nil {
+				// whether the database reopens is the subject of the durability properties, not of C19
+				st.label("restart-mid-sequence:failed")
+				st.notes = append(st.notes, rerr.Error())
+				if env.eng == nil {
+					closed = true
+					if env.cleanup != nil {
+						env.cleanup()
+					}
+					return "", nil
+				}
+			}
+			tainted = false
+			continue
+		}
 		target := strings.ReplaceAll(strings.ReplaceAll(r.Target, c19PHEsc, rootEsc), c19PH, env.root)
 		body, stream, err := c19Materialise(r, env.root)
 		if err != nil {
@@ -375,6 +401,17 @@ func c19Run(c c19Case, st *c19Stats) (violation string, harnessErr error) {
 		// class labels
 		for _, m := range r.Mut {
 			st.label("mut:" + m)
+			if strings.HasPrefix(m, "followup:") {
+				st.nontriv = true // a later valid write on a node that already holds nested metadata
+			}
+			if strings.HasPrefix(m, "followup:") || strings.HasPrefix(m, "store:") {
+				st.label("answer:" + m + ":" + strconv.Itoa(resp.status))
+			}
+		}
+		if pat != "" && claim == "" {
+			if cl := c19MetaShape(body); cl != "" {
+				st.label("meta:" + cl + ":" + c19StatusClass(resp.status))
+			}
 		}
 		if len(r.Mut) == 0 {
 			st.label("mut:none")
@@ -488,6 +525,56 @@ func c19AfterHang(col *verifkit.Collector, c c19Case, msg string) {
 	os.Exit(1)
 }
 
+// c19MetaShape classifies the metadata-like values of a decoded body:
+// "list-of-containers" (a list with an object or list element), "nested" (other
+// nesting of depth >= 2), "" (flat or none).
+func c19MetaShape(body []byte) string {
+	var v map[string]any
+	if json.Unmarshal(body, &v) != nil {
+		return ""
+	}
+	best := ""
+	var look func(x any, depth int)
+	look = func(x any, depth int) {
+		switch t := x.(type) {
+		case []any:
+			for _, e := range t {
+				switch e.(type) {
+				case []any, map[string]any:
+					best = "list-of-containers"
+				}
+				look(e, depth+1)
+			}
+		case map[string]any:
+			if depth >= 1 && best == "" {
+				best = "nested"
+			}
+			for _, e := range t {
+				look(e, depth+1)
+			}
+		}
+	}
+	for _, k := range []string{"metadata", "properties", "new_metadata", "props"} {
+		if m, ok := v[k].(map[string]any); ok {
+			for _, e := range m {
+				look(e, 0)
+			}
+		}
+	}
+	if items, ok := v["vectors"].([]any); ok {
+		for _, it := range items {
+			if im, ok := it.(map[string]any); ok {
+				if m, ok := im["metadata"].(map[string]any); ok {
+					for _, e := range m {
+						look(e, 0)
+					}
+				}
+			}
+		}
+	}
+	return best
+}
+
 // closeEngineOnly closes the engine but keeps the sandbox.
 func (env *c19Env) closeEngineOnly() string {
 	cl := env.cleanup
@@ -537,7 +624,7 @@ func c19TraversalOnLifecycle(pat, target string, body []byte) bool {
 // test entry point
 // ---------------------------------------------------------------------------
 
-const c19Rule = "one case = 1-6 HTTP requests (KV, vector, index, graph, system routes; valid bodies mutated by field deletion, type change, null, empty, extreme numbers, NaN-like tokens, deep nesting, unknown fields, wrong dimension, unknown ids, path-grammar names, non-JSON, published limits) served by a fresh real server through the full middleware chain. NON-TRIVIAL: at least one mutated body that the route's request type still decodes, or an over-limit request, or a name with '..' reaching an index create/add/drop route"
+const c19Rule = "one case = 1-7 HTTP requests, optionally with a restart of engine and server in between (KV, vector, index, graph, system routes; valid bodies mutated by field deletion, type change, null, empty, extreme numbers, NaN-like tokens, deep nesting, unknown fields, wrong dimension, unknown ids, path-grammar names, non-JSON, published limits) served by a fresh real server through the full middleware chain. NON-TRIVIAL: at least one mutated body that the route's request type still decodes, or an over-limit request, or a name with '..' reaching an index create/add/drop route, or a follow-up metadata write (set-node-properties, reinforce, evolve, delete + re-add) on a node that already holds nested JSON metadata"
 
 func TestVerif_C19_http(t *testing.T) {
 	c19ProcessInit()
